@@ -175,3 +175,16 @@ Proof.
   apply with_index_triple.
   intros j e H. apply nth_error_firstn_local in H. rewrite nth_error_skipn_local in H. apply W, H.
 Qed.
+
+(* ---- quorum ---- *)
+(** [RaftNode.quorum_size] as regenerated is the model's [quorum], and it is a strict
+    majority of the cluster (the node and its peers): two quorums always intersect —
+    the arithmetic fact election safety and leader completeness rest on. *)
+Lemma tie_raft_quorum (r : RaftNode) (n : node) :
+  length (peers n) = length (RaftNode__peers r) -> RaftNode_quorum_size r = quorum n.
+Proof. intros H. unfold RaftNode_quorum_size, quorum, zlen. rewrite H. reflexivity. Qed.
+
+Lemma raft_quorum_majority (r : RaftNode) :
+  let total := Z.of_nat (length (RaftNode__peers r)) + 1 in
+  2 * RaftNode_quorum_size r > total /\ RaftNode_quorum_size r <= total.
+Proof. unfold RaftNode_quorum_size. cbn zeta. split; lia. Qed.
